@@ -249,6 +249,35 @@ def factor_safety(pred, table):
     return None
 
 
+def factor_of(pred, table):
+    """The factor ``pred.factors[table]`` as an AST (None = no factor), same rules as ``factor_safety``."""
+    f = pred['f']
+    if f in _LEAF_PREDS or f == 'not':
+        return pred if direct_tables(pred) == {table} and not has_elem(pred) else None
+    if f in ('and', 'or'):
+        left, right = factor_of(pred['l'], table), factor_of(pred['r'], table)
+        if f == 'or':
+            return None if left is None or right is None else {'f': 'or', 'l': left, 'r': right}
+        if left is None or right is None:
+            return left if right is None else right
+        return {'f': 'and', 'l': left, 'r': right}
+    return None
+
+
+class _AllNull(dict):
+    def __missing__(self, key):
+        return None
+
+
+def null_satisfied(factor) -> bool:
+    """Does the factor hold on the all-NULL row (the NULL extension of an outer join)? Falls back to the syntactic
+    test (some null test in it) if the reference evaluator cannot judge it."""
+    try:
+        return refeval._Eval(_AllNull()).value(factor, _AllNull()) is True  # pylint: disable=protected-access
+    except Exception:  # pylint: disable=broad-except
+        return any(n.get('f') in ('isnull', 'notnull') for n in A.walk(factor))
+
+
 def _registered_with_joins(query) -> list:
     out = []
     if query.get('where') is not None:
@@ -284,8 +313,8 @@ def scan_factor_causes(stmt) -> list:
                 continue
             if info['ref'] is not None:
                 safety = 'shared-segment'  # factors are about the directly queried table, never about its reference
-            elif safety == 'safe' and join is None and _null_supplied(info['query']['src'], table) and any(
-                n.get('f') == 'isnull' and direct_tables(n) == {table} for n in A.walk(pred)
+            elif safety == 'safe' and join is None and _null_supplied(info['query']['src'], table) and null_satisfied(
+                factor_of(pred, table)
             ):
                 safety = 'null-side-isnull'  # implied for contributing rows, yet dropping others un-matches preserved rows
             entries.append(safety)
